@@ -334,6 +334,7 @@ func (sfd *StatusFileData) UpdateFullStatus(filename string, statusFunc func(*St
 		return err
 	}
 	verifPoint("upd.written", filename)
+	verifPointIfShorter("upd.shrinking", filename, file, size)
 	size, err = file.Seek(0, 1)
 	if err != nil {
 		return err
